@@ -47,7 +47,8 @@ EXPECTED_PROBES = ["ndim1", "ndim2", "ndim3", "unset_cell_read", "zero_row_cell"
                    "rejected_out_of_range", "copy_independence_checked", "metadata_independence_checked",
                    "set_flattened_identity", "fancy_list_index", "negative_step_slice",
                    "single_cell_via_slice", "integer_cell_field_op", "negative_int_index",
-                   "numpy_int_index", "cell_with_many_rows", "dim_ge_8", "fields_ge_5"]
+                   "numpy_int_index", "cell_with_many_rows", "dim_ge_8", "fields_ge_5",
+                   "field_assigned_from_field_view_other_field"]
 
 OPS = ["set_cell", "get_cell", "slice_get", "slice_set", "field_op", "flatten", "set_flat",
        "add_fields", "remove_fields", "copy_check", "metadata", "second_vector", "rejected",
@@ -128,7 +129,10 @@ def _gen_op(r, kinds):
         return {"op": k, "f": r.randrange(100)}
     if k == "set_flat":
         return {"op": k, "f": r.randrange(100), "identity": r.chance(0.4), "fill": r.randrange(10 ** 6),
-                "via": r.pick(["method", "item"])}
+                "via": r.pick(["method", "item"]),
+                # what stands on the right-hand side: a fresh array, a list, the view of ANOTHER field
+                # of the same vector, or a field view of an independent copy
+                "src": r.fork("src").pick(["array", "array", "list", "view_same", "view_other"])}
     if k == "add_fields":
         return {"op": k, "n": r.pick([1, 1, 2, 3]), "as_str": r.chance(0.3), "tag": r.randrange(1000)}
     if k == "remove_fields":
@@ -618,11 +622,22 @@ def run(plan):
                 else:
                     vals = np.round(np.random.Generator(np.random.PCG64(op["fill"])).uniform(
                         -5, 5, tot), 3)
+                    src = op.get("src", "array")
+                    rhs = vals.copy()
+                    if src == "list":
+                        rhs = vals.tolist()
+                    elif src in ("view_same", "view_other") and tot:
+                        gj = op["fill"] % m.nf
+                        vals = np.asarray(m.flatten()[:, gj], dtype=float).copy()
+                        holder = v if src == "view_same" else v.copy()
+                        rhs = holder[m.fields[gj]]
+                        bump(probes, "field_assigned_from_field_view" + (
+                            "_other_field" if gj != j else "_same_field"))
                     try:
                         if op["via"] == "item":
-                            v[f] = vals.copy()
+                            v[f] = rhs
                         else:
-                            v[f].set_flattened(vals.copy())
+                            v[f].set_flattened(rhs.flatten() if hasattr(rhs, "vector") else rhs)
                     except Exception as e:
                         viol("op_raised", f"set_flattened raised {e!r}", f"op_raised:set_flat:{sigs}")
                         continue
